@@ -9,7 +9,7 @@ WIDE = [0, 1, 2, 3, 4, 5, 63, 64, 65, 127, 128, 192, 256]
 WIDEBAD = [(64, 64, 127), (64, 64, 129), (64, 64, 64), (1, 1, 1), (0, 0, 1), (65, 63, 64), (8, 8, 256), (128, 128, 256)]
 M64 = (1 << 64) - 1
 RULE = ('corpus, then exhaustive operand pairs at widths 0..5 (0..6 thorough) for overflowing/checked/saturating/wrapping mul, '
-        'every value for inv_ring at widths 0..8, exhaustive widening_mul on (BITS,BITS_RHS) in {0..5}^2; then structured pairs over '
+        'every value for inv_ring at widths 0..8, every Product list of length <= 3 at widths 0..3, exhaustive widening_mul on (BITS,BITS_RHS) in {0..5}^2; then structured pairs over '
         '37 widths x 10 ops: value classes, limb-structured operands (zero low / high / middle limbs, all-ones limbs, single bit), '
         'products landing on 2^bits-1, 2^bits, 2^bits+1, just below/above 2^bits (b = floor/ceil(2^bits/a)), on 2^(64*LIMBS); '
         'widening_mul on a 13x13 width grid (0,1,2,3,4,5,63,64,65,127,128,192,256) incl. wrong BITS_RES (assert); inv_ring on odd/even '
@@ -97,7 +97,7 @@ def boundary_pairs(rng, bits):
 
 def gen(rng, tier):
     quick = tier == 'quick'
-    n = 40000 if quick else 1500000
+    n = 40000 if quick else 5000000
     exh = 5 if quick else 6
     for bits in range(0, exh + 1):
         for a in range(1 << bits):
@@ -112,6 +112,13 @@ def gen(rng, tier):
             for a in range(1 << b1):
                 for b in range(1 << b2):
                     yield 'wide %d %d %s %s' % (b1, b2, hx(a), hx(b))
+    for bits in range(0, 4):
+        vals = list(range(1 << bits))
+        for cnt in range(0, 4):
+            import itertools
+            for xs in itertools.product(vals, repeat=cnt):
+                for op in ('prod', 'prodref'):
+                    yield '%s %d %s' % (op, bits, ','.join(hx(x) for x in xs) if xs else '-')
     for b1, b2, br in WIDEBAD:
         for _ in range(3):
             yield 'widebad %d %d %d %s %s' % (b1, b2, br, hx(value(rng, b1)), hx(value(rng, b2)))
@@ -175,3 +182,27 @@ def shrink_candidates(c):
             for nv in (0, 1, v >> 64, v >> 1, v & (v - 1), v - 1):
                 if nv != v and nv >= 0:
                     yield ' '.join(toks[:k] + [format(nv, 'x')] + toks[k + 1:])
+
+
+def extra_checks(tier, rng, findings):
+    """thorough tier: repeat the corpus and a structured sample against a --release build of the harness."""
+    if tier != 'thorough':
+        return {}
+    import itertools
+    import os
+    import vlib
+    binpath, secs = vlib.build_harness(BIN, release=True)
+    drv = os.path.join(vlib.LEAN, '.lake', 'build', 'bin', DRV)
+    cases = []
+    cpath = os.path.join(vlib.ROOT, 'corpus', 'C02.cases')
+    if os.path.exists(cpath):
+        cases += [l.strip() for l in open(cpath) if l.strip() and not l.startswith('#')]
+    cases += list(itertools.islice(gen(rng, 'quick'), 90000))
+    impl, _ = vlib.run_impl(binpath, cases)
+    ms = vlib.run_model(drv, cases, impl)
+    viol = []
+    for c, i, (m, s) in zip(cases, impl, ms):
+        k = vlib.classify(c, i, m, s)
+        if k is not None:
+            viol.append((k if k != 'model-error' else 'impl-violation', c + '   [release build]', i, m, s))
+    return {'violations': viol[:50], 'coverage': {'release_rerun': {'cases': len(cases), 'mismatches': len(viol), 'cargo_s': round(secs, 1)}}}
